@@ -7,7 +7,12 @@ func init() {
 			n = 1500
 		}
 		return runHistories("SEQ", "SeqCheck", "histcase", "seq_run", seed, n, func(r *rng, i int) seqOpts {
-			return seqOpts{bufSize: 256, pause: r.chance(3, 4), max1: []int{0, 1, 2, 3, 8, -1}[r.intn(6)], max2: []int{0, 1, 2, 4, -1, 20000}[r.intn(6)],
+			big := r.chance(1, 3)
+			bs := 256
+			if big {
+				bs = []int{32, 64}[r.intn(2)]
+			}
+			return seqOpts{bigMsgs: big, hostile: r.chance(1, 4), bufSize: bs, pause: r.chance(3, 4), max1: []int{0, 1, 2, 3, 8, -1}[r.intn(6)], max2: []int{0, 1, 2, 4, -1, 20000}[r.intn(6)],
 				clean: r.chance(1, 3), faultRate: []int{0, 30, 80}[r.intn(3)], storeFaults: []int{0, 0, 40}[r.intn(3)], lossRate: []int{0, 100, 300}[r.intn(3)],
 				steps: 10 + r.intn(30), adoptRate: []int{0, 3, 8}[r.intn(3)]}
 		}, out, 10)
